@@ -598,10 +598,10 @@ func c18Check(c C18Case, cx *h.Ctx) *h.Failure {
 		}
 		if !ok {
 			cx.Skip("ignoreorder_ring_status_undefined")
-		} else if wantIO && !gotIO && (extremeRing(p.m1) || extremeRing(p.m2)) {
-			return h.Failf("exactequals/ignoreorder-ring-extreme-magnitude", "ExactEquals(%s,%s,IgnoreOrder)=false for rings that differ only by rotation; their coordinates are so small/large that the library's ring (simplicity) test under/overflows%s", p.n1, p.n2, desc())
-		} else if wantIO && !gotIO && (misjudgedRing(p.m1) || misjudgedRing(p.m2)) {
-			return h.Failf("exactequals/ignoreorder-ring-float-simplicity", "ExactEquals(%s,%s,IgnoreOrder)=false for rings that differ only by rotation/direction; LineString.IsRing(), evaluated in float64, rejects a closed line that is exactly simple (nearly collinear adjacent segments)%s", p.n1, p.n2, desc())
+		} else if gotIO != wantIO && (extremeRing(p.m1) || extremeRing(p.m2)) && (misjudgedRing(p.m1) || misjudgedRing(p.m2)) {
+			return h.Failf("exactequals/ignoreorder-ring-extreme-magnitude", "ExactEquals(%s,%s,IgnoreOrder)=%v, want %v, for closed lines that differ only by rotation; their coordinates are so small/large that the library's ring (simplicity) test under/overflows and disagrees with the exact ring status%s", p.n1, p.n2, gotIO, wantIO, desc())
+		} else if gotIO != wantIO && (misjudgedRing(p.m1) || misjudgedRing(p.m2)) {
+			return h.Failf("exactequals/ignoreorder-ring-float-simplicity", "ExactEquals(%s,%s,IgnoreOrder)=%v, want %v, for closed lines that differ only by rotation/direction; LineString.IsRing(), evaluated in float64, disagrees with the exact ring status (nearly collinear adjacent segments)%s", p.n1, p.n2, gotIO, wantIO, desc())
 		} else if gotIO != wantIO {
 			return h.Failf("exactequals/ignoreorder", "ExactEquals(%s,%s,IgnoreOrder)=%v, brute-force order-insensitive comparison says %v%s", p.n1, p.n2, gotIO, wantIO, desc())
 		}
@@ -624,9 +624,9 @@ func c18Check(c C18Case, cx *h.Ctx) *h.Failure {
 			cx.Skip("both_options_undecided")
 		case gotBoth != revBoth:
 			return h.Failf("exactequals/both-asymmetric", "IgnoreOrder+ToleranceXY(%v): (A,B)=%v (B,A)=%v%s", c.Tol, gotBoth, revBoth, desc())
-		case gotBoth != wantBoth && (extremeRing(c.A) || extremeRing(c.B)) && wantBoth:
+		case gotBoth != wantBoth && (extremeRing(c.A) || extremeRing(c.B)) && (misjudgedRing(c.A) || misjudgedRing(c.B)):
 			return h.Failf("exactequals/ignoreorder-ring-extreme-magnitude", "IgnoreOrder+ToleranceXY(%v) = false for rotated rings at extreme magnitude%s", c.Tol, desc())
-		case gotBoth != wantBoth && wantBoth && (misjudgedRing(c.A) || misjudgedRing(c.B)):
+		case gotBoth != wantBoth && (misjudgedRing(c.A) || misjudgedRing(c.B)):
 			return h.Failf("exactequals/ignoreorder-ring-float-simplicity", "IgnoreOrder+ToleranceXY(%v) = false for rotated rings that LineString.IsRing() (float64) rejects although they are exactly simple%s", c.Tol, desc())
 		case gotBoth != wantBoth:
 			return h.Failf("exactequals/both-options", "ExactEquals(A,B,IgnoreOrder,ToleranceXY(%v))=%v, brute-force matching says %v%s", c.Tol, gotBoth, wantBoth, desc())
@@ -742,18 +742,18 @@ func extremeRing(g gm.G) bool {
 	return found
 }
 
-// misjudgedRing: some closed line or polygon ring of g is exactly simple (rational arithmetic) while the
-// library's LineString.IsRing(), evaluated in float64, says it is not a ring.  This is the root cause of
+// misjudgedRing: for some closed line or polygon ring of g the exact ring status (closed and simple, rational
+// arithmetic) differs from the library's LineString.IsRing(), evaluated in float64 - in either direction.  This is the root cause of
 // the open findings F18/F28: ExactEquals only tries rotations when IsRing() holds.
 func misjudgedRing(g gm.G) bool {
 	found := false
 	chk := func(fs []gm.F, ct int) {
 		li := analyseLine(fs, ct)
-		if !li.closed || !li.clean || !li.ring {
+		if !li.closed || !li.clean {
 			return
 		}
 		ls := gm.G{T: gm.LineString, CT: ct, Co: fs}.ToGeom()
-		if ls.IsLineString() && !ls.MustAsLineString().IsRing() {
+		if ls.IsLineString() && ls.MustAsLineString().IsRing() != li.ring {
 			found = true
 		}
 	}
